@@ -19,6 +19,8 @@ package client
 // computed here on the implementation alone.
 
 import (
+	"context"
+	crand "crypto/rand"
 	"crypto/tls"
 	"encoding/json"
 	"errors"
@@ -68,8 +70,8 @@ type c16Step struct {
 	G    int      `json:"g"`
 	Kind string   `json:"kind"` // tcp | udp
 	Mode string   `json:"mode"` // ok | err | gate
-	How  string   `json:"how"`  // release: ok|err ; kill: sock|srv
-	F    []string `json:"f"`    // fault queue entries: ok cfgerr newerr hsconn hsauth
+	How  string   `json:"how"`  // release: ok|err ; kill: sock|srv|sockclose|idle|reset
+	F    []string `json:"f"`    // fault queue entries: ok cfgerr newerr hsconn hsauth hsvn hsblack
 	N    int      `json:"n"`
 	Hold []string `json:"hold"` // call: stages of its reconnect at which the call parks: cfg new hs
 }
@@ -80,6 +82,9 @@ type c16Case struct {
 	UDP   bool      `json:"udp"`
 	Init  string    `json:"init"` // fault of the eager first connect
 	Steps []c16Step `json:"steps"`
+	// client configuration dimensions that decide HOW a lost connection shows up in quic-go
+	NoParrot bool `json:"noparrot"` // QUICConfig.DisableChromeParrot: non-empty connection ids => stateless resets are detected
+	Idle     int  `json:"idle"`     // QUICConfig.MaxIdleTimeout in seconds (0 = default 30 s)
 }
 
 type c16Ev struct {
@@ -91,7 +96,7 @@ type c16Ev struct {
 	N   int    `json:"n,omitempty"`
 	R   string `json:"r,omitempty"`
 	O   []int  `json:"o,omitempty"`
-	K   string `json:"k,omitempty"` // start: tcp | udp
+	K   string `json:"k,omitempty"` // start: tcp | udp ; lost / ret: kind of the terminal error (c16Kinds)
 }
 
 var (
@@ -107,18 +112,36 @@ type c16Sock struct {
 	sid    int
 	closes int32
 	killed atomic.Bool
-	lost   bool // the harness killed the connection on this socket (guarded by h.mu)
-	filled bool // the harness exhausted the stream limit of the connection on this socket
+	black  atomic.Bool // blackhole: nothing gets out, nothing gets in (the path died silently)
+	lost   bool        // the harness killed the connection on this socket (guarded by h.mu)
+	filled bool        // the harness exhausted the stream limit of the connection on this socket
+	// (guarded by h.mu) how the connection was lost, the kind of the terminal error quic-go reported for it, and
+	// whether a call that started after the loss has come back from this (dead) client
+	lostHow  string
+	lostKind string
+	seen     bool
 }
 
 var errC16Killed = errors.New("verif: socket failed")
 
 func (s *c16Sock) ReadFrom(b []byte) (int, net.Addr, error) {
-	n, a, err := s.PacketConn.ReadFrom(b)
-	if s.killed.Load() {
-		return 0, nil, errC16Killed
+	for {
+		n, a, err := s.PacketConn.ReadFrom(b)
+		if s.killed.Load() {
+			return 0, nil, errC16Killed
+		}
+		if err == nil && s.black.Load() {
+			continue
+		}
+		return n, a, err
 	}
-	return n, a, err
+}
+
+func (s *c16Sock) WriteTo(b []byte, a net.Addr) (int, error) {
+	if s.black.Load() {
+		return len(b), nil
+	}
+	return s.PacketConn.WriteTo(b, a)
 }
 
 func (s *c16Sock) Close() error {
@@ -297,6 +320,16 @@ type c16Hist struct {
 	closerBusy bool                 // an rc.Close() is in flight on its own goroutine
 	closerGoid int64                // (mu)
 	closerDone chan struct{}
+	// the ways a connection can die
+	cs       c16Case
+	tlsc     server.TLSConfig
+	srv      server.Server
+	srvKey   quic.StatelessResetKey
+	fakes    []net.PacketConn // fake peers of failing handshakes (version negotiation, silence)
+	kinds    []c16KindObs     // error kinds observed in this history (mu)
+	noFaultAtSt [c16NG]bool   // no failing connect was queued when the call started
+	lostAtSt [c16NG]bool      // the current client at the start of the call was one whose connection the harness had killed
+	kindAtSt [c16NG]string    // ... and how / with which terminal error
 	// a call into the code under test panicked: the handle counts as unusable, the history stops
 	dead     atomic.Bool
 	pmu      sync.Mutex // its own lock: a panic can surface while mu is held further up the stack
@@ -433,13 +466,109 @@ func (h *c16Hist) configFunc() (*Config, error) {
 	if f == "hsauth" {
 		auth = "bad"
 	}
+	addr := h.srvAddr
+	switch f {
+	case "hsvn", "hsblack":
+		// handshake-level failures that come from the peer: a peer that offers no QUIC version we speak
+		// (VersionNegotiationError), a peer that never answers (handshake idle timeout)
+		if a := h.fakePeer(f == "hsvn"); a != nil {
+			addr = a
+		}
+	}
 	return &Config{
 		ConnFactory: &c16Factory{h: h, fault: f},
-		ServerAddr:  h.srvAddr,
+		ServerAddr:  addr,
 		Auth:        auth,
 		// "hsconn": certificate verification fails => RoundTrip error => ConnectError path of connect()
 		TLSConfig: TLSConfig{InsecureSkipVerify: f != "hsconn"},
+		QUICConfig: QUICConfig{
+			DisableChromeParrot: h.cs.NoParrot,
+			MaxIdleTimeout:      time.Duration(h.cs.Idle) * time.Second,
+		},
 	}, nil
+}
+
+// a UDP peer that is no hysteria server: it answers every long-header packet with a Version Negotiation packet
+// that offers only a version nobody speaks (vn), or never answers at all
+func (h *c16Hist) fakePeer(vn bool) net.Addr {
+	pc, err := net.ListenUDP("udp", &net.UDPAddr{IP: net.IPv4(127, 0, 0, 1)})
+	if err != nil {
+		h.fail("harness: ListenUDP (fake peer): " + err.Error())
+		return nil
+	}
+	h.mu.Lock()
+	h.fakes = append(h.fakes, pc)
+	h.mu.Unlock()
+	go func() {
+		buf := make([]byte, 2048)
+		for {
+			n, from, err := pc.ReadFrom(buf)
+			if err != nil {
+				return
+			}
+			if !vn || n < 7 || buf[0]&0x80 == 0 {
+				continue
+			}
+			// long header: flags(1) version(4) dcidlen(1) dcid scidlen(1) scid
+			p := buf[:n]
+			dl := int(p[5])
+			if 6+dl+1 > n {
+				continue
+			}
+			dcid := p[6 : 6+dl]
+			sl := int(p[6+dl])
+			if 7+dl+sl > n {
+				continue
+			}
+			scid := p[7+dl : 7+dl+sl]
+			out := []byte{0x80 | 0x2a, 0, 0, 0, 0, byte(sl)}
+			out = append(out, scid...)
+			out = append(out, byte(dl))
+			out = append(out, dcid...)
+			out = append(out, 0xff, 0x00, 0x00, 0x1d) // draft-29 only
+			_, _ = pc.WriteTo(out, from)
+		}
+	}()
+	return pc.LocalAddr()
+}
+
+// (re)start the hysteria server of this history on addr (nil = any port).  A restart keeps the address and the
+// stateless reset key, as a server process that comes back with its configuration does; everything it knew
+// about its connections is gone and no CONNECTION_CLOSE was sent.
+func (h *c16Hist) startServer(addr *net.UDPAddr) error {
+	if addr == nil {
+		addr = &net.UDPAddr{IP: net.IPv4(127, 0, 0, 1)}
+	}
+	var uc *net.UDPConn
+	var err error
+	for i := 0; i < 100; i++ {
+		if uc, err = net.ListenUDP("udp", addr); err == nil {
+			break
+		}
+		time.Sleep(20 * time.Millisecond)
+	}
+	if err != nil {
+		return errors.New("listen: " + err.Error())
+	}
+	key := h.srvKey
+	s, err := server.NewServer(&server.Config{
+		TLSConfig:         h.tlsc,
+		Conn:              uc,
+		Outbound:          &c16Outbound{h},
+		Authenticator:     c16Auth{},
+		TrafficLogger:     &c16TL{h},
+		DisableUDP:        !h.cs.UDP,
+		StatelessResetKey: &key,
+		// (the Chrome fingerprint pins the client's own idle timeout to 30 s: the effective one is the minimum of both ends)
+		QUICConfig: server.QUICConfig{MaxIncomingStreams: 8, MaxIdleTimeout: time.Duration(h.cs.Idle) * time.Second},
+	})
+	if err != nil {
+		return errors.New("server: " + err.Error())
+	}
+	h.srvAddr = uc.LocalAddr()
+	h.srv = s
+	go s.Serve()
+	return nil
 }
 
 func (h *c16Hist) connectedFunc(c Client, info *HandshakeInfo, n int) {
@@ -498,6 +627,165 @@ func c16Class(err error) string {
 		return "hserr"
 	}
 	return "recov"
+}
+
+// ---------------------------------------------------------------- the ways a connection can die
+//
+// Finite enum of the error kinds that reach wrapIfConnectionClosed (OpenStream / stream Read / stream Write of
+// the pinned quic-go) or that end a connection attempt.  id = position in the Coq enum model/C16_Loss.v errkind.
+// terminal = the connection is gone for good when quic-go reports it.  The property needs every terminal kind
+// classified as ClosedError (that is what takes clientDo to its "drop, close, reconnect next time" branch).
+type c16KindRow struct {
+	name     string
+	terminal bool
+	sample   error
+}
+
+var c16Kinds = []c16KindRow{
+	{"streamlimit", false, &quic.StreamLimitReachedError{}},
+	{"idle", true, &quic.IdleTimeoutError{}},
+	{"hstimeout", true, &quic.HandshakeTimeoutError{}},
+	{"appremote", true, &quic.ApplicationError{ErrorCode: 0x107, Remote: true}},
+	{"applocal", true, &quic.ApplicationError{ErrorCode: 0x100}},
+	{"trremote", true, &quic.TransportError{ErrorCode: quic.ProtocolViolation, Remote: true}},
+	{"trlocal", true, &quic.TransportError{ErrorCode: quic.InternalError}},
+	{"crypto", true, &quic.TransportError{ErrorCode: 0x100 + 42}},
+	{"vneg", true, &quic.VersionNegotiationError{}},
+	{"reset", true, &quic.StatelessResetError{}},
+	{"trclosed", true, quic.ErrTransportClosed},
+	{"netclosed", true, net.ErrClosed},
+	{"streamreset", false, &quic.StreamError{ErrorCode: 0x10c, Remote: true}},
+	{"eof", false, io.EOF},
+	{"deadline", false, os.ErrDeadlineExceeded},
+}
+
+func c16KindID(name string) int {
+	for i, r := range c16Kinds {
+		if r.name == name {
+			return i
+		}
+	}
+	return -1
+}
+
+// the kind of an error value, by its dynamic type ("unknown:<type>" if it is none of the enum)
+func c16Kind(err error) string {
+	var sl *quic.StreamLimitReachedError
+	var slv quic.StreamLimitReachedError
+	var idle *quic.IdleTimeoutError
+	var hst *quic.HandshakeTimeoutError
+	var app *quic.ApplicationError
+	var tre *quic.TransportError
+	var vn *quic.VersionNegotiationError
+	var rst *quic.StatelessResetError
+	var ste *quic.StreamError
+	switch {
+	case err == nil:
+		return ""
+	case errors.As(err, &sl), errors.As(err, &slv):
+		return "streamlimit"
+	case errors.As(err, &idle):
+		return "idle"
+	case errors.As(err, &hst):
+		return "hstimeout"
+	case errors.As(err, &app):
+		if app.Remote {
+			return "appremote"
+		}
+		return "applocal"
+	case errors.As(err, &tre):
+		if tre.ErrorCode >= 0x100 && tre.ErrorCode < 0x200 {
+			return "crypto"
+		}
+		if tre.Remote {
+			return "trremote"
+		}
+		return "trlocal"
+	case errors.As(err, &vn):
+		return "vneg"
+	case errors.As(err, &rst):
+		return "reset"
+	case errors.Is(err, quic.ErrTransportClosed):
+		return "trclosed"
+	case errors.As(err, &ste):
+		return "streamreset"
+	case errors.Is(err, io.EOF), errors.Is(err, io.ErrUnexpectedEOF):
+		return "eof"
+	case errors.Is(err, os.ErrDeadlineExceeded):
+		return "deadline"
+	case errors.Is(err, net.ErrClosed):
+		return "netclosed"
+	}
+	return fmt.Sprintf("unknown:%T", err)
+}
+
+// one observation of a real error value: where it was seen (wrap = it went through wrapIfConnectionClosed, as a
+// return value of TCP()/UDP() or probed on the close reason of a killed connection; connect = it ended a
+// connection attempt, inside ConnectError), its kind, and whether it was / is wrapped as ClosedError
+type c16KindObs struct {
+	Site   string `json:"site"`
+	Kind   string `json:"kind"`
+	Closed bool   `json:"closed"`
+}
+
+func (h *c16Hist) noteKindLocked(o c16KindObs) {
+	for _, x := range h.kinds {
+		if x == o {
+			return
+		}
+	}
+	h.kinds = append(h.kinds, o)
+}
+
+// what a return value of TCP() / UDP() / the constructor tells about error kinds ("" = nothing)
+func c16RetKind(err error) (o c16KindObs, kind string) {
+	if err == nil {
+		return o, ""
+	}
+	if ce, ok := err.(coreErrs.ClosedError); ok {
+		if ce.Err == nil {
+			return o, "" // rc.closed / a closed UDP session manager: no quic-go error inside
+		}
+		k := c16Kind(ce.Err)
+		return c16KindObs{"wrap", k, true}, k
+	}
+	var ce coreErrs.ConnectError
+	if errors.As(err, &ce) {
+		k := c16Kind(ce.Err)
+		return c16KindObs{"connect", k, false}, k
+	}
+	var ae coreErrs.AuthError
+	var de coreErrs.DialError
+	if errors.Is(err, errC16Cfg) || errors.Is(err, errC16New) || errors.As(err, &ae) || errors.As(err, &de) {
+		return o, ""
+	}
+	// came back as it was: wrapIfConnectionClosed (or whoever) held it for recoverable
+	k := c16Kind(err)
+	return c16KindObs{"wrap", k, false}, k
+}
+
+// The classification table of the working tree: wrapIfConnectionClosed on one value of every kind.
+func c16KindTable() (table string, bad []string) {
+	var rows []string
+	for i, r := range c16Kinds {
+		_, closed := wrapIfConnectionClosed(r.sample).(coreErrs.ClosedError)
+		rows = append(rows, fmt.Sprintf("(%d%%nat, %v)", i, closed))
+		if k := c16Kind(r.sample); k != r.name {
+			bad = append(bad, fmt.Sprintf("harness: sample of kind %s is recognised as %s", r.name, k))
+		}
+		if r.terminal && !closed {
+			bad = append(bad, fmt.Sprintf("reconnect on loss: the terminal connection error %T (kind %s) is classified as recoverable by wrapIfConnectionClosed: "+
+				"a connection that ends this way is never dropped, closed or replaced", r.sample, r.name))
+		}
+	}
+	return "[" + strings.Join(rows, "; ") + "]", bad
+}
+
+func kind0(k string) string {
+	if k == "udp" {
+		return "udp"
+	}
+	return "tcp"
 }
 
 // current underlying client (nil if none)
@@ -848,6 +1136,12 @@ func (h *c16Hist) quiet() {
 	if h.rcClosed && len(o) > 0 {
 		h.why = append(h.why, fmt.Sprintf("census: sockets %v still open after Close", o))
 	}
+	for _, sk := range h.socks {
+		if sk.lost && sk.seen && sk.closes == 0 {
+			h.why = append(h.why, fmt.Sprintf("census: socket %d of the connection that was lost (%s, terminal error kind %q) is still open at a quiescent point after a call has come back from that client: the dead client was not dropped and closed",
+				sk.sid, sk.lostHow, sk.lostKind))
+		}
+	}
 	if o == nil {
 		o = []int{}
 	}
@@ -875,6 +1169,12 @@ func (h *c16Hist) startCall(g int, kind, mode string, hold []string) {
 	h.mu.Lock()
 	h.startSid[g] = ssid
 	h.startNsk[g] = len(h.socks)
+	h.lostAtSt[g] = false
+	h.kindAtSt[g] = ""
+	if ssid >= 0 && ssid < len(h.socks) && h.socks[ssid].lost {
+		h.lostAtSt[g] = true
+		h.kindAtSt[g] = fmt.Sprintf("%s, terminal error kind %q", h.socks[ssid].lostHow, h.socks[ssid].lostKind)
+	}
 	h.holds[g] = append([]string{}, hold...)
 	h.held[g] = ""
 	h.holdCh[g] = make(chan struct{}, 1)
@@ -893,6 +1193,12 @@ func (h *c16Hist) startCall(g int, kind, mode string, hold []string) {
 	h.gates[g] = make(chan string, 1)
 	h.parked[g] = make(chan struct{}, 1)
 	h.cfgAtStart[g] = h.ncfg
+	h.noFaultAtSt[g] = true
+	for _, f := range h.faults {
+		if f != "ok" {
+			h.noFaultAtSt[g] = false
+		}
+	}
 	h.startSeqOK[g] = seq && (h.lastRet == "" || h.lastRetSeq)
 	h.prevRetAtSt[g] = h.lastRet
 	closedBefore := h.rcClosed
@@ -936,9 +1242,32 @@ func (h *c16Hist) startCall(g int, kind, mode string, hold []string) {
 			return
 		}
 		r := c16Class(err)
+		ko, kname := c16RetKind(err)
 		h.mu.Lock()
-		h.logLocked(c16Ev{E: "ret", G: g, R: r})
+		h.logLocked(c16Ev{E: "ret", G: g, R: r, K: kname})
+		if kname != "" {
+			h.noteKindLocked(ko)
+		}
 		ncfg := h.ncfg - h.cfgAtStart[g]
+		// Reconnect on loss, clause by clause, on calls that ran alone from a quiescent point:
+		// (a) the call that finds the client whose connection was lost either reports the loss (ClosedError) or
+		//     replaces the connection itself; it never comes back with anything else from the dead client
+		//     (UDP() on a server without UDP support is answered before the connection is looked at)
+		meetsLoss := h.startSeqOK[g] && h.lostAtSt[g] && !h.closeBegun && (kind != "udp" || h.cs.UDP)
+		if meetsLoss && ncfg == 0 && r != "closed" {
+			h.why = append(h.why, fmt.Sprintf("reconnect on loss: %s() on the client whose connection was lost (%s) returned %s (%T: %v) and made no "+
+				"connection attempt: the loss is neither reported as ClosedError nor repaired", strings.ToUpper(kind0(kind)), h.kindAtSt[g], r, err, err))
+		}
+		if meetsLoss && h.startSid[g] >= 0 && h.startSid[g] < len(h.socks) {
+			h.socks[h.startSid[g]].seen = true
+		}
+		// (b) the call after a reported loss connects again and, with a live server and nothing made to fail,
+		//     succeeds on the fresh connection: the number of failing calls after a loss is bounded by one
+		if h.startSeqOK[g] && h.prevRetAtSt[g] == "closed" && !closedBefore && !h.closeBegun && h.noFaultAtSt[g] &&
+			mode == "ok" && (kind != "udp" || h.cs.UDP) && r != "ok" {
+			h.why = append(h.why, fmt.Sprintf("reconnect on loss: the call after a ClosedError return, with the server up and no fault injected, returned %s (%T: %v), want success on a fresh connection",
+				r, err, err))
+		}
 		if r == "closed" && !h.closeBegun {
 			just, filled := false, false
 			for _, sk := range h.socks {
@@ -1056,21 +1385,67 @@ func (h *c16Hist) kill(how string) {
 	}
 	h.mu.Lock()
 	sock.lost = true
-	h.logLocked(c16Ev{E: "kill", Sid: sock.sid})
+	sock.lostHow = how
+	h.logLocked(c16Ev{E: "kill", Sid: sock.sid, R: how})
 	h.mu.Unlock()
-	if how == "srv" {
+	limit := 10 * time.Second
+	poke := false
+	switch how {
+	case "srv":
+		// the server disconnects this client: CONNECTION_CLOSE with an application error
 		h.kick.Store(true)
 		go func() { _, _ = kp.Write([]byte{1}) }()
-	} else {
+	case "sockclose":
+		// the local socket is closed under the transport (interface gone, fd closed by somebody else)
+		_ = sock.PacketConn.Close()
+	case "idle":
+		// the path dies silently: nothing arrives any more, the idle timeout has to notice
+		sock.black.Store(true)
+		limit = h.idleTimeout() + 15*time.Second
+	case "reset":
+		// the server process restarts: same address, same stateless reset key, no memory of its connections
+		// and no CONNECTION_CLOSE.  With non-empty connection ids the client's next packet is answered by a
+		// stateless reset; with the (default) zero-length ids of the Chrome fingerprint quic-go cannot
+		// recognise resets and the idle timeout has to notice
+		old := h.srv
+		_ = old.Close()
+		if err := h.startServer(h.srvAddr.(*net.UDPAddr)); err != nil {
+			h.fail("harness: server restart: " + err.Error())
+			return
+		}
+		poke = true
+		limit = h.idleTimeout() + 15*time.Second
+	default: // "sock": reading from the local socket fails
 		sock.killed.Store(true)
 		_ = sock.PacketConn.SetReadDeadline(time.Now())
 	}
-	select {
-	case <-cl.conn.Context().Done():
-	case <-time.After(10 * time.Second):
-		h.fail("harness: client did not notice the kill")
+	end := time.After(limit)
+wait:
+	for {
+		if poke {
+			// something to answer: a datagram that is long enough to draw a stateless reset
+			_ = cl.conn.SendDatagram(make([]byte, 300))
+		}
+		select {
+		case <-cl.conn.Context().Done():
+			break wait
+		case <-end:
+			h.fail("harness: client did not notice the kill (" + how + ")")
+			break wait
+		case <-time.After(50 * time.Millisecond):
+		}
 	}
 	h.kick.Store(false)
+	if cause := context.Cause(cl.conn.Context()); cl.conn.Context().Err() != nil && cause != nil {
+		// what quic-go reports for this loss, and how the code under test classifies that very value
+		k := c16Kind(cause)
+		_, closed := wrapIfConnectionClosed(cause).(coreErrs.ClosedError)
+		h.mu.Lock()
+		sock.lostKind = k
+		h.noteKindLocked(c16KindObs{"wrap", k, closed})
+		h.logLocked(c16Ev{E: "lost", Sid: sock.sid, R: how, K: k})
+		h.mu.Unlock()
+	}
 	if cl.udpSM != nil {
 		for i := 0; i < 2000; i++ {
 			cl.udpSM.mutex.RLock()
@@ -1082,6 +1457,13 @@ func (h *c16Hist) kill(how string) {
 			time.Sleep(time.Millisecond)
 		}
 	}
+}
+
+func (h *c16Hist) idleTimeout() time.Duration {
+	if h.cs.Idle > 0 {
+		return time.Duration(h.cs.Idle) * time.Second
+	}
+	return defaultMaxIdleTimeout
 }
 
 // kick stream of the most recent connection
@@ -1155,32 +1537,32 @@ type c16Out struct {
 	Err  string  `json:"err,omitempty"`
 	// a call into the code under test panicked (recovered by the harness): evs is the log up to there
 	Panicked bool `json:"panicked,omitempty"`
+	// kinds of the real error values seen in this history, and whether each was wrapped as ClosedError
+	Kinds []c16KindObs `json:"kinds,omitempty"`
+	// class case: the classification table of the working tree
+	Table string `json:"table,omitempty"`
 }
 
 func c16Run(i int, c c16Case, tlsc server.TLSConfig) (out c16Out) {
 	out.I = i
-	h := &c16Hist{logging: true, kickPipes: map[int]net.Conn{}, lastQuiet: true}
-	uc, err := net.ListenUDP("udp", &net.UDPAddr{IP: net.IPv4(127, 0, 0, 1)})
-	if err != nil {
-		out.Err = "listen: " + err.Error()
+	h := &c16Hist{logging: true, kickPipes: map[int]net.Conn{}, lastQuiet: true, cs: c, tlsc: tlsc}
+	if _, err := crand.Read(h.srvKey[:]); err != nil {
+		out.Err = "rand: " + err.Error()
 		return
 	}
-	h.srvAddr = uc.LocalAddr()
-	s, err := server.NewServer(&server.Config{
-		TLSConfig:     tlsc,
-		Conn:          uc,
-		Outbound:      &c16Outbound{h},
-		Authenticator: c16Auth{},
-		TrafficLogger: &c16TL{h},
-		DisableUDP:    !c.UDP,
-		QUICConfig:    server.QUICConfig{MaxIncomingStreams: 8},
-	})
-	if err != nil {
-		out.Err = "server: " + err.Error()
+	if err := h.startServer(nil); err != nil {
+		out.Err = err.Error()
 		return
 	}
-	go s.Serve()
-	defer s.Close()
+	defer func() {
+		_ = h.srv.Close()
+		h.mu.Lock()
+		fk := h.fakes
+		h.mu.Unlock()
+		for _, f := range fk {
+			_ = f.Close()
+		}
+	}()
 
 	if !c.Lazy && c.Init != "" {
 		h.faults = append(h.faults, c.Init)
@@ -1192,11 +1574,17 @@ func c16Run(i int, c c16Case, tlsc server.TLSConfig) (out c16Out) {
 	}
 	h.log(c16Ev{E: "init", Ok: c.Lazy})
 	var cli Client
+	var err error
 	if h.guard("NewReconnectableClient()", func() { cli, err = NewReconnectableClient(h.configFunc, h.connectedFunc, c.Lazy) }) {
 		h.log(c16Ev{E: "initend", R: "panic"})
 		out.Gone = true
 	} else if h.log(c16Ev{E: "initend", R: c16Class(err)}); err != nil {
 		out.Gone = true
+		if ko, kname := c16RetKind(err); kname != "" {
+			h.mu.Lock()
+			h.noteKindLocked(ko)
+			h.mu.Unlock()
+		}
 		if cli != nil {
 			h.fail("constructor returned both a client and an error")
 		}
@@ -1334,6 +1722,17 @@ func c16Run(i int, c c16Case, tlsc server.TLSConfig) (out c16Out) {
 	out.Panicked = len(h.panicWhy) > 0
 	h.pmu.Unlock()
 	out.Evs = h.evs
+	out.Kinds = h.kinds
+	for _, k := range h.kinds {
+		if strings.HasPrefix(k.Kind, "unknown:") {
+			// not a verdict on the property: the enum of error kinds the model is stated over does not cover what
+			// quic-go really returned (the driver reports it as a broken correspondence)
+			continue
+		}
+		if id := c16KindID(k.Kind); id >= 0 && c16Kinds[id].terminal && k.Site == "wrap" && !k.Closed {
+			h.why = append(h.why, fmt.Sprintf("reconnect on loss: the terminal connection error of kind %q, as quic-go really reported it in this history, is not classified as ClosedError", k.Kind))
+		}
+	}
 	out.Nsk = len(h.socks)
 	for _, sk := range h.socks {
 		out.Cl = append(out.Cl, int(sk.closes))
@@ -1408,7 +1807,9 @@ func TestVerifC16(t *testing.T) {
 		}
 		return "false"
 	}
+	table, tableBad := c16KindTable()
 	vParams(t, [][3]string{
+		{"c16_kind_closed", "raw", table},
 		{"c16_nonpermanent_count", "nat", strconv.Itoa(len(nonPermanentErrors))},
 		{"c16_streamlimit_is_closed", "bool", b(slClosed)},
 		{"c16_eof_is_closed", "bool", b(eofClosed)},
@@ -1454,7 +1855,8 @@ func TestVerifC16(t *testing.T) {
 					continue
 				}
 				if c.K == "class" {
-					emit(c16Out{I: i, Ok: true})
+					// every terminal connection error of the enum must be classified as ClosedError
+					emit(c16Out{I: i, Ok: len(tableBad) == 0, Why: strings.Join(tableBad, "; "), Table: table})
 					continue
 				}
 				if started != nil {
